@@ -107,6 +107,15 @@ def run(tier, seed, replay=None):
             ents = [{"id": n + 1, "db": db, "key": "t%d:%d" % (db, n), "kind": rnd.choice(KINDS), "n": 3, "elem": 6, "enc": rnd.randrange(50), "type": -1}
                     for n, db in enumerate([0, 1, 2, 2, 1, 3, 0, 3, 2])]
             cases.append({"id": 20000 + j, "cfg": cfg, "pre": [], "entries": ents})
+        # a fault at the target: one RESTORE is refused with an error that has nothing to do with the key existing (a busy script, out
+        # of memory, still loading): under every key_exists policy the run must report it - a skipped key is a silent loss
+        texts = ["BUSY Redis is busy running a script. You can only call SCRIPT KILL or SHUTDOWN NOSAVE.", "OOM command not allowed when used memory > 'maxmemory'.",
+                 "LOADING Redis is loading the dataset in memory", "ERR Target instance replied with error: MISCONF busy disk"]
+        for j, (mode, pol) in enumerate([(m, p2) for m in ("sync", "restore") for p2 in ("none", "rewrite", "ignore")]):
+            cfg = {"mode": mode, "parallel": 2, "tdb": -1, "key_exists": pol, "target_replace": True, "sched": "random", "big_threshold": 0,
+                   "target": {"version": "5.0.7", "fault_key": "f:%d" % (j % 3), "fault_text": texts[j % len(texts)]}}
+            ents = [{"id": n + 1, "db": n % 2, "key": "f:%d" % n, "kind": "string", "n": 1, "elem": 6, "type": -1} for n in range(5)]
+            cases.append({"id": 21000 + j, "cfg": cfg, "pre": [], "entries": ents})
         rows = run_cases(sc, PID, verdict, cases, seed, "model-sequences", stats)
         # the as-built chunk race on the real code: chunked hash + rewrite + >= 2 workers, one connection starved
         race = []
